@@ -47,6 +47,8 @@ def default_cfg():
         "clock": "mono",
         "neg_source_rs": False,
         "zero_params": 0.0,
+        "deprecated_iq": False,
+        "mega": False,
     }
 
 
@@ -211,11 +213,15 @@ class Gen:
         """Typical current scale of the run class."""
         if self.cfg["micro"]:
             return 10.0 ** self.r.randint(-9, -6)
+        if self.cfg.get("mega"):
+            return 1.0e5  # kV x kA systems: magnitudes beyond the default limits of 1e6
         return 1.0
 
     def source(self, m, name=None, positive=None):
         name = name or self.fresh("S", m)
         v = self.r.pick(SRC_V)
+        if self.cfg.get("mega"):
+            v = v * 1000.0
         if positive is False or (positive is None and self.r.chance(self.cfg["neg_supply"])):
             v = -v
         p = {"vo": v}
@@ -232,7 +238,7 @@ class Gen:
         si = self.scale_i()
         p = {}
         if kind == "PLoad":
-            p["pwr"] = self.neg(self.eng(-3, -1) * (5.0 if heavy else 1.0) * si)
+            p["pwr"] = self.neg(self.eng(-3, -1) * (5.0 if heavy else 1.0) * si * (1000.0 if self.cfg.get("mega") else 1.0))
             if self.r.chance(0.4):
                 p["pwrs"] = self.neg(self.eng(-4, -3) * si)
         elif kind == "ILoad":
@@ -243,6 +249,8 @@ class Gen:
             p["rs"] = round(a / (self.eng(-3, -2) * si), 3) * (-1 if (self.cfg["neg_params"] and self.r.chance(self.cfg["neg_params"])) else 1)
         elif kind == "RLoss":
             p["rs"] = self.neg(self.r.pick([0.01, 0.05, 0.1, 0.33, 1.0, 2.2]) / (si if si < 1 else 1.0) * (1.0 if not self.cfg["micro"] else 1e-3))
+            if self.cfg.get("mega"):
+                p["rs"] = p["rs"] * 0.1
         elif kind == "VLoss":
             d = round(min(0.05 * a + 0.05, 0.7) * self.r.pick([0.3, 0.6, 1.0]), 4)
             p["vdrop"] = self.maybe_table("vdrop", self.neg(d), 0.2 * d, d, a, 0.2 * si, mono=True)
@@ -268,6 +276,15 @@ class Gen:
             g = self.eng(-4, -3) * si
             if self.r.chance(0.7):
                 p["ig"] = self.maybe_table("ig", self.neg(g), 0.5 * g, 2 * g, a, 0.2 * si, mono=True)
+                if self.cfg.get("deprecated_iq") and self.r.chance(0.5):
+                    # the deprecated spelling: iq (scalar, or a table keyed 'iq')
+                    v = p.pop("ig")
+                    if isinstance(v, dict):
+                        v = {"vi": v["vi"], "io": v["io"], "iq": v["ig"]}
+                    if isinstance(v, dict) or v != 0.0:
+                        p["iq"] = v
+                    else:
+                        p["ig"] = v
             if self.r.chance(0.4):
                 p["iis"] = self.neg(self.eng(-4, -4) * si)
         elif kind in ("PSwitch", "PMux"):
@@ -475,6 +492,8 @@ class Gen:
         if len(nonl) >= 2:
             two = self.r.sample(nonl, 2)
             out.append(("list_parent_nonmux", {"op": "add_comp", "parent": two, "comp": c("RLoss"), "group": "", "rail": ""}))
+        if loads and m.mux() is None and nonl:
+            out.append(("mux_input_is_load", {"op": "add_comp", "parent": [self.r.pick(loads), self.r.pick(nonl)], "comp": c("PMux"), "group": "", "rail": ""}))
         out.append(("dup_parents", {"op": "add_comp", "parent": [anyp, anyp], "comp": c("PMux"), "group": "", "rail": ""}))
         if m.mux() is not None:
             out.append(("second_mux", {"op": "add_comp", "parent": [anyp], "comp": c("PMux"), "group": "", "rail": ""}))
@@ -696,7 +715,8 @@ class Gen:
         steps = self.r.randint(3, 40)
         model = {"kind": kind, "v0": round(v * self.r.pick([1.0, 1.1, 0.95]), 4), "rs0": self.r.pick([0.0, 0.05, 0.1, 0.2])}
         model["v1"] = round(model["v0"] * self.r.pick([0.6, 0.75, 0.85]), 4)
-        if kind == "imp":
+        if kind == "imp" or (kind in ("stepped", "cc") and self.r.chance(0.5)):
+            # also on voltage plateaus: same voltage reported again with another impedance
             model["rs1"] = model["rs0"] + self.r.pick([0.05, 0.1, 0.3])
         if kind == "stepped":
             model["steps"] = self.r.randint(2, 5)
